@@ -38,7 +38,11 @@ def xml (c : Text) : Except String Text :=
   | none, _ => .error "xml: open comment tag is expected"
   | _, none => .error "xml: close comment tag is expected"
 
-/-- Markdown `[//]: # (…)` link-reference-definition comments (after the panic fixes). -/
+/-- every char becomes as many spaces as it has bytes, except line breaks, which stay -/
+def blankKeepBreaks (t : Text) : Text :=
+  (t.map (fun ch => if ch = '\n' || ch = '\r' then [ch] else spaces ch.utf8Size)).flatten
+
+/-- Markdown `[//]: # (…)` link-reference-definition comments (after the panic and line-break fixes). -/
 def mdLink (c : Text) : Option Text :=
   match findSub "[//]:".toList c with
   | none => none
@@ -56,7 +60,7 @@ def mdLink (c : Text) : Option Text :=
         | none => none
         | some k =>
           if k ≤ o then none
-          else some (takeBytes p c ++ spaces 5 ++ spaces (o - (p + 5) + 1) ++ sliceBytes (o + 1) k c ++ ' ' ::
+          else some (takeBytes p c ++ spaces 5 ++ blankKeepBreaks (sliceBytes (p + 5) (o + 1) c) ++ sliceBytes (o + 1) k c ++ ' ' ::
                       (if k + 1 < ulen c then dropBytes (k + 1) c else []))
 
 /-- hash comments: only a leading `#` is a delimiter -/
